@@ -14,6 +14,22 @@
    The model is tied to rig/machine_control/scp_connection.py on every run by exact trace equality against
    the real code on fault schedules (harness/c06.py), and its constants (return codes, retryable set,
    sequence mask) are regenerated from the live modules (Generated/GenSCP.v). *)
+(* Notes on the statements.
+   * select_honest (Spec/SCP.v) is phrased along the model's own pre/post: "the k-th select, given the timeout the
+     model computes, returns with data or after MORE than that timeout".  It is a hypothesis on the environment's
+     answers to the requests the code makes, not on the trace alone; the timeouts it refers to are the OSelect
+     values of the trace (compared with the real select arguments by the correspondence run).
+   * The inequality is strict (now + timeout < clock after select) because the code's expiry test is strict
+     (timeout_time < current_time): a select that returns exactly at the deadline on an unchanged clock expires
+     nothing, the next select is given 0, and with a clock that never passes the deadline the loop spins for ever --
+     termination genuinely needs the clock to get past the deadline, so <= would make C06_termination false.
+   * retransmissions_spaced measures from the clock reading that sets the deadline; the model sends at that same
+     reading (in the code sock.send follows time.time() with no user code in between).
+   * Not covered by a theorem (decided by the harness oracle only): the per-call buffer size / receive length
+     (a callback gets the whole datagram), the fields of the packet send_scp returns, byte layout of requests
+     (the correspondence names a datagram "command c" only if all its bytes but the sequence number are c's),
+     arrival instants finer than "delivered by this select".
+   * C06_reply_matches needs Causal and Fresh; users of C06 (C07's burst composition) inherit these hypotheses. *)
 From Coq Require Import ZArith List Bool.
 Require Import Rig.Generated.GenSCP Rig.Generated.GenSCPShape Rig.Model.Base Rig.Model.SCP Rig.Model.SCPSource Rig.Spec.SCP.
 Require Import Rig.Proofs.SCP Rig.Proofs.SCPReply Rig.Proofs.SCPTerm Rig.Proofs.SCPWitness Rig.Proofs.SCPDrain.
@@ -134,6 +150,17 @@ Theorem C06_termination :
         oc <> NeedEvent).
 Proof. exact termination. Qed.
 
+(* the three endings, in one place: with an honest select and enough events a call returns, or raises the
+   timeout error, or raises the fatal-return-code error -- nothing else (no other exception, no endless loop) *)
+Theorem C06_outcome_dichotomy :
+  forall cf cmds evs k tr oc k' rest,
+    config_ok cf -> 0 <= k_seq k < 65536 ->
+    select_honest cf evs k (bstate0 cmds) ->
+    Z.of_nat (datagrams k evs) + Z.of_nat (length cmds) * (cf_tries cf - 1) + 1 <= Z.of_nat (length evs) ->
+    burst cf cmds evs k = (tr, oc, k', rest) ->
+    oc = Returned \/ (exists c, oc = RaisedTimeout c) \/ (exists rc c, oc = RaisedFatal rc c).
+Proof. exact outcome_dichotomy. Qed.
+
 (* the inner loop `while seq in outstanding_packets` always exits (window <= 2^16: a number is free) *)
 Theorem C06_no_seq_divergence :
   forall cf cmds evs k tr oc k' rest,
@@ -195,6 +222,19 @@ Example C06_hypotheses_satisfiable :
     burst ex_cf ex_cmds ex_events conn0 = (tr, Returned, k', rest) /\ causal ([] ++ tr) /\ fresh ([] ++ tr) /\
     n_sends 0 tr = 2%nat /\ n_sends 1 tr = 2%nat /\ length rest = 6%nat.
 Proof. exact ex_satisfiable. Qed.
+
+(* two calls on ONE connection with a non-empty history: the first call's command is answered late, retransmitted
+   and completed; the late reply to its first transmission is delivered during the second call and ignored
+   there; history_ok, Causal and Fresh hold of the joint history (so C06_reply_matches applies to call 2) *)
+Example C06_two_calls_history_satisfiable :
+  exists tr1 k1 rest1 tr2 k2 rest2,
+    burst ex2_cf1 ex2_cmds1 ex2_events1 conn0 = (tr1, Returned, k1, rest1) /\
+    burst ex2_cf2 ex2_cmds2 ex2_events2 k1 = (tr2, Returned, k2, rest2) /\
+    config_ok ex2_cf2 /\ NoDup (ids ex2_cmds2) /\
+    history_ok tr1 k1 ex2_cmds2 /\ In (OSend 0 0 0 0) tr1 /\ In (OSend 1 0 0 11) tr1 /\
+    causal (tr1 ++ tr2) /\ fresh (tr1 ++ tr2) /\
+    In (ORecv (Dg 128 0 0)) tr2 /\ ~ In (ORecv (Dg 128 0 0)) tr1.
+Proof. exact ex_two_calls. Qed.
 
 Example C06_timeout_outcome_exists :
   exists tr k' rest, burst (Cf 1 2 10 [] []) [Cmd 7 0] [Ev [] 11; Ev [] 22] conn0 = (tr, RaisedTimeout 7, k', rest).
